@@ -471,6 +471,10 @@ func ruleOmitSpec(c *Ctx) {
 		w, ok := want[ct.Name]
 		pos := ct.Methods["Omit"].Fn.Pos()
 		if !ok {
+			if p.codecUnreachable(ct) {
+				c.Note("S.spec.omit: %s is not in the omission table and not used by the module - skipped", ct.Name)
+				continue
+			}
 			c.Oblige("S.spec.omit", false, pos, ct.Name, "omission rule", "new codec type without an entry in the omission table: needs classification", nil)
 			continue
 		}
